@@ -91,6 +91,10 @@ private:
 
 	// set to true when shutting down
 	bool m_close;
+
+	// true while the server connection is being established (name lookup and
+	// connect). Requests arriving meanwhile wait in m_server_out_buffer
+	bool m_connecting = false;
 };
 
 }
